@@ -48,6 +48,8 @@ CAUSE = {"nt_setitem": "nontensor-promotion", "nt_set_at": "nontensor-promotion"
          "member_relock_edit": "lazy-implicit-lock-cycle", "lazy_materialised": "lazy-materialised",
          "mutate_result": "result-mutation", "isleaf_reuse": "address-reuse"}
 
+UNLOCKING_OPS = {"relock", "relock_edit", "with_unlock", "member_relock_edit", "mm_sub_unlock_edit", "sub_unlock"}
+
 MATERIALISING = {"flatten_keys", "unflatten_keys", "detach", "_add_batch_dim", "_remove_batch_dim", "_maybe_remove_batch_dim",
                  "_items_list", "_values_list"}
 
@@ -184,6 +186,8 @@ class Runner:
                 evs.append(("rebind", p))
             elif b["val"] != a["val"]:
                 evs.append(("content", p))
+            if b is not None and a is not None and b.get("ntmeta") != a.get("ntmeta"):
+                evs.append(("meta", p))
         for (eff, p) in evs:
             self.observed_event_kinds.add(eff)
             for q in an:
@@ -243,7 +247,11 @@ class Runner:
                 pass
         if e is not None:
             cause = CAUSE.get(e["op"], e["op"])
-            if cause == "metadata-under-lock" and "_key_list" in methods and e.get("target") == nodepath:
+            if e["effect"] == "meta" and e["op"] not in UNLOCKING_OPS and e["op"] not in CAUSE:
+                # whichever call got there (names=, rename_, batch_size=, apply_ re-assigning nested nodes, a rename_ that failed half
+                # way): it is the names / batch-size setters that run under lock without invalidating
+                cause = "metadata-under-lock"
+            if cause == "metadata-under-lock" and "_key_list" in methods and e.get("target") == nodepath and e["op"] in ("names", "rename_"):
                 cause = "lazy-own-names-setter"     # the lazy stack's own setter carries @erase_cache: not a recorded defect
             elif cause == "metadata-under-lock" and "names" in methods and e["at"] != nodepath:
                 cause = "lazy-member-names"
